@@ -106,9 +106,12 @@ func (p seqProp) Shrink(x any) []any {
 
 func init() {
 	Register(seqProp{id: "C01",
-		rule: "every 6th case runs on 2-3 nearly full simulated disks (writes are retried on another root or fail with ErrNoFreeSpace and are then not applied); cases: seeded sequential histories (10-40 steps) of Set/SetReader (5 reader shapes)/Create+Write*+Close/Get/GetReader/GetKeys/Delete over 2-5 keys (ASCII, multi-byte, long, with slash), contents 0..200 KiB incl. 2047-2049, 32767-32769, 65537; empty-key Set and never-written Get; collector (direct and timer), background windows and drains at boundaries; distinct = hash(ops, switch trace); non-trivial = some key is written at least twice (overwrite or delete/re-create)",
+		rule: "one case in five thousand is a marathon (16 400-17 300 writes in one process before the earliest keys are read again); every 6th case runs on 2-3 nearly full simulated disks (writes are retried on another root or fail with ErrNoFreeSpace and are then not applied); cases: seeded sequential histories (10-40 steps) of Set/SetReader (5 reader shapes)/Create+Write*+Close/Get/GetReader/GetKeys/Delete over 2-5 keys (ASCII, multi-byte, long, with slash), contents 0..200 KiB incl. 2047-2049, 32767-32769, 65537; empty-key Set and never-written Get; collector (direct and timer), background windows and drains at boundaries; distinct = hash(ops, switch trace); non-trivial = some key is written at least twice (overwrite or delete/re-create)",
 		runs: [2]int{15000, 250000},
 		gen: func(r *simrt.Rand, idx int, tier string) SeqCase {
+			if idx%5003 == 77 {
+				return genMarathon(r, "C01")
+			}
 			c := genSeqCase(r, seqProfile{prop: "C01", steps: [2]int{10, 40}, keys: [2]int{2, 5}, ctlWeight: 12, emptyKey: true, big: true, readback: "auto", deleteHeavy: r.Intn(2) == 0, held: 4, heldW: 4})
 			if idx%6 == 5 {
 				// nearly full disks: writes are retried on other roots or fail with ErrNoFreeSpace
@@ -163,9 +166,12 @@ func init() {
 			return c
 		}})
 	Register(seqProp{id: "C03",
-		rule: "cases: as C02 but biased to overlapping write sets (2/3 of writes hit one key), several writes per key inside a transaction, deletes, autocommit writes between Begin and Commit; every 4th case injects a Badger update failure into one commit or autocommit write; checked: error class of every Commit/Rollback against the model (serialization error iff a written key has a newer committed version) and a read-back of all keys by all actors after every step; non-trivial = at least one transaction and two writes",
+		rule: "cases: as C02 but biased to overlapping write sets (2/3 of writes hit one key), several writes per key inside a transaction, deletes, autocommit writes between Begin and Commit; every 4th case injects a Badger update failure into one commit or autocommit write; one case in 500 is a single conflict-free transaction of 400-800 writes under keys of 2-4 KiB, one in 5000 one of 12 000-16 000 writes and deletes (its Commit must succeed); checked: error class of every Commit/Rollback against the model (serialization error iff a written key has a newer committed version) and a read-back of all keys by all actors after every step; non-trivial = at least one transaction and two writes",
 		runs: [2]int{10000, 160000},
 		gen: func(r *simrt.Rand, idx int, tier string) SeqCase {
+			if idx%500 == 333 || idx%5003 == 334 {
+				return genBigCommit(r, idx%5003 == 334)
+			}
 			c := genSeqCase(r, seqProfile{prop: "C03", steps: [2]int{15, 50}, keys: [2]int{2, 3}, maxTx: 5, txWeight: 75, ctlWeight: 6, readback: "all", overlap: true, levels: []int{0, 1, 2, 2, 3, 3}})
 			if idx%4 == 3 {
 				// fail the storage update of one commit / write
@@ -192,17 +198,20 @@ func init() {
 			return genSeqCase(r, seqProfile{prop: "C09", steps: [2]int{20, 70}, keys: [2]int{2, 3}, maxTx: 5, txWeight: 65, gcEvery: true, readback: "all", held: 6, heldW: 3, big: true})
 		}}})
 	Register(seqProp{id: "C13",
-		rule: "cases: C02-style histories in which ended transaction handles (after Commit, failed Commit, Rollback, and after a reopen) keep being used for Get/GetReader/GetKeys/Set/SetReader/Create/Delete/Commit/Rollback in seeded order while observers of all levels are open; every late call except Rollback must return ErrTxNotFound (Rollback nil) and no observer's read-back may change; non-trivial = at least one late call was made",
+		rule: "cases: C02-style histories in which ended transaction handles (after Commit, failed Commit, Rollback, and after a reopen) keep being used for Get/GetReader/GetKeys/Set/SetReader/Create/Delete/Commit/Rollback in seeded order while observers of all levels are open; one case in 400: 1000-8200 transactions begin and end on one open database before the handles of the last ones and of a sample are used again; every late call except Rollback must return ErrTxNotFound (Rollback nil) and no observer's read-back may change; non-trivial = at least one late call was made",
 		runs: [2]int{4000, 160000},
 		gen: func(r *simrt.Rand, idx int, tier string) SeqCase {
 			rp := 0
 			if idx%3 == 0 {
 				rp = 3
 			}
+			if idx%400 == 57 {
+				return genManyEnded(r)
+			}
 			return genSeqCase(r, seqProfile{prop: "C13", steps: [2]int{20, 60}, keys: [2]int{2, 3}, maxTx: 5, txWeight: 65, ctlWeight: 4, late: true, reopen: rp, readback: "all"})
 		}})
 	Register(propC14{seqProp{id: "C14",
-		rule: "three quarters of the cases: fault-free sequential histories of autocommit and transactional writes, deletes, commits, failed commits and rollbacks (15-60 steps, contents up to 200 KiB), optional reopen with jobs still queued; one case in a hundred: a transaction leaving 1000-2600 contents behind at once; one in a hundred: a backlog of 1100-8200 versions becoming collectable between two collector passes (optionally held back by an old snapshot transaction until the end); then all transactions are ended, the world runs to exact quiescence, one collection pass, quiescence; one quarter: small concurrent programs (the generators of C06 and C07) under seeded schedules, then the same end game; oracle: the regular files under all roots are in bijection with the keys GetKeys returns and byte-equal to their contents; non-trivial = some key written at least twice (sequential) / client operations overlapped (concurrent)",
+		rule: "three quarters of the cases: fault-free sequential histories of autocommit and transactional writes, deletes, commits, failed commits and rollbacks (15-60 steps, contents up to 200 KiB), optional reopen with jobs still queued; in every fifth history a Begin naming an isolation level that does not exist (accepted and rolled back, or refused); one case in a hundred: a transaction leaving 1000-2600 contents behind at once; one in a hundred: a backlog of 1100-8200 versions becoming collectable between two collector passes (optionally held back by an old snapshot transaction until the end); then all transactions are ended, the world runs to exact quiescence, one collection pass, quiescence; one quarter: small concurrent programs (the generators of C06 and C07) under seeded schedules, then the same end game; oracle: the regular files under all roots are in bijection with the keys GetKeys returns and byte-equal to their contents; non-trivial = some key written at least twice (sequential) / client operations overlapped (concurrent)",
 		runs: [2]int{10000, 160000},
 		gen: func(r *simrt.Rand, idx int, tier string) SeqCase {
 			rp := 0
@@ -212,7 +221,7 @@ func init() {
 			return genSeqCase(r, seqProfile{prop: "C14", steps: [2]int{15, 60}, keys: [2]int{2, 4}, maxTx: 4, txWeight: 55, ctlWeight: 8, reopen: rp, big: true, readback: "auto", walk: "final", deleteHeavy: r.Intn(2) == 0, overlap: r.Intn(2) == 0, heldW: 3})
 		}}})
 	Register(seqProp{id: "C17",
-		rule: "cases: 150-600 tiny writes interleaved with deletes, collector runs, drains and reopenings, directory limit at its clamp (config values 0-150 generated), 1-3 roots; in a third of the cases the creation of a directory fails now and then, in another third the listing of a directory that is full fails (EIO) at the moment it is due to be rotated out; after every step a walk of the roots: every regular file at root/<uuid>/<uuid>, a uuid directory per root once a write was attempted, no directory above the limit, a directory that was full and regained room receives a new file before the chance of a uniform choice among the directories below the limit missing it that long falls under 1e-12 (about 70 writes with 3 candidates, 210 with 8); non-trivial = at least 100 writes (directories rotate)",
+		rule: "cases: 150-600 tiny writes interleaved with deletes, collector runs, drains and reopenings, directory limit at its clamp (config values 0-150 generated; every tenth case a limit of 256-513 with that many writes in a row and more), 1-3 roots; in a third of the cases the creation of a directory fails now and then, in another third the listing of a directory that is full fails (EIO) at the moment it is due to be rotated out; after every step a walk of the roots: every regular file at root/<uuid>/<uuid>, a uuid directory per root once a write was attempted, no directory above the limit, a directory that was full and regained room receives a new file before the chance of a uniform choice among the directories below the limit missing it that long falls under 1e-12 (about 70 writes with 3 candidates, 210 with 8); non-trivial = at least 100 writes (directories rotate)",
 		runs: [2]int{600, 20000},
 		gen: func(r *simrt.Rand, idx int, tier string) SeqCase {
 			c := genSeqCase(r, seqProfile{prop: "C17", steps: [2]int{150, 600}, keys: [2]int{4, 8}, ctlWeight: 6, reopen: 1, readback: "none", walk: "shape", deleteHeavy: idx%2 == 0})
@@ -287,6 +296,17 @@ func init() {
 				}
 			}
 			c.World.MaxDirCount = []uint64{0, 1, 50, 99, 100, 100, 101, 150}[r.Intn(8)]
+			if idx%10 == 3 {
+				// a limit well above the clamp, and enough writes in a row (nothing deleted in between)
+				// for one directory to reach it
+				c.World.MaxDirCount = []uint64{256, 257, 300, 511, 513}[r.Intn(5)]
+				c.World.Roots = c.World.Roots[:1]
+				id := uint64(800000)
+				for k := 0; k < int(c.World.MaxDirCount)+40+r.Intn(60); k++ {
+					id++
+					c.Ops = append(c.Ops, Op{K: "set", Key: fmt.Sprintf("fill-%04d", k), ID: id, Size: 1 + r.Intn(16)})
+				}
+			}
 			c.World.RootStyle = []int{0, 0, 1, 2, 3}[r.Intn(5)] // roots as an operator might spell them
 			for i := range c.Ops {
 				if c.Ops[i].Size > 0 {
@@ -539,6 +559,17 @@ func (p propC14) Gen(r *simrt.Rand, idx int, tier string) any {
 		return C14Case{Seq: &c}
 	}
 	c := p.seqProp.gen(r, idx, tier)
+	if idx%5 == 2 && len(c.Ops) > 4 {
+		// somewhere in the first half a Begin names an isolation level that does not exist; accepted
+		// (and rolled back at once) or refused, it must not keep anything from being reclaimed later
+		at := r.Intn(len(c.Ops) / 2)
+		c.Ops = append(c.Ops[:at], append([]Op{{K: "beginbad", N: r.Intn(3)}}, c.Ops[at:]...)...)
+		for i := range c.FaultOps {
+			if c.FaultOps[i] >= at {
+				c.FaultOps[i]++
+			}
+		}
+	}
 	if idx%8 == 1 && simGrpcAvailable() {
 		// the same histories through the external client: every handler's context ends when its
 		// call returns, while the deletions the call left behind are still queued
@@ -694,4 +725,129 @@ func (s *seqRun) forgetRegained(d string) {
 	delete(s.writesSince, d)
 	delete(s.dirQuiesced, d)
 	delete(s.missLog, d)
+}
+
+// genMarathon: one process, one database, a history far longer than any other: two keys written
+// (one of them deleted) at the very beginning, then 16 400-17 300 tiny writes over a few hundred
+// rotating keys with the collector in between, then the early keys, the listing and a sample of
+// the others are read. Whatever counts, wraps or repeats per process (identifiers, counters,
+// caches, thresholds in the thousands) gets the chance to.
+func genMarathon(r *simrt.Rand, prop string) SeqCase {
+	c := SeqCase{Prop: prop, ReadBack: "none"}
+	c.Sched = SchedSpec{Seed: r.Uint64(), Strategy: "seqbg", MaxSteps: 400_000_000}
+	c.World = genWorldSpec(r)
+	c.World.GCPeriodNs = int64(time.Hour)
+	c.Keys = []string{"first", "gone"}
+	nk := 200 + r.Intn(300)
+	key := func(i int) string { return fmt.Sprintf("m-%03d", i) }
+	id := uint64(1)
+	c.Ops = append(c.Ops, Op{K: "set", Key: "first", ID: id, Size: 15}, Op{K: "set", Key: "gone", ID: id + 1, Size: 16}, Op{K: "del", Key: "gone"})
+	id += 2
+	n := 16400 + r.Intn(900)
+	for i := 0; i < n; i++ {
+		id++
+		c.Ops = append(c.Ops, Op{K: "set", Key: key(r.Intn(nk)), ID: id, Size: 9 + r.Intn(16)})
+		if i%3000 == 2999 {
+			c.Ops = append(c.Ops, Op{K: "gc", N: 1}, Op{K: "drain"})
+		}
+	}
+	c.Ops = append(c.Ops, Op{K: "get", Key: "first"}, Op{K: "get", Key: "gone"}, Op{K: "keys"})
+	for i := 0; i < 60; i++ {
+		c.Ops = append(c.Ops, Op{K: "get", Key: key(r.Intn(nk))})
+	}
+	return c
+}
+
+// genManyEnded: thousands of transactions begin and end on one open database (most of them
+// empty, some with a write; committed or rolled back), then the handles of the last ones and of a
+// sample of the others are used again (reads, a write, a second Commit), with an autocommit
+// read-back of every key afterwards: whatever the registry of transactions does every so many
+// endings must not bring an ended transaction back.
+func genManyEnded(r *simrt.Rand) SeqCase {
+	c := SeqCase{Prop: "C13", ReadBack: "none"}
+	c.Sched = SchedSpec{Seed: r.Uint64(), Strategy: "seqbg", MaxSteps: 400_000_000}
+	c.World = genWorldSpec(r)
+	c.World.GCPeriodNs = int64(time.Hour)
+	c.Keys = []string{"k", "late"}
+	id := uint64(1)
+	c.Ops = append(c.Ops, Op{K: "set", Key: "k", ID: id, Size: 12})
+	n := []int{1000, 4096, 4100, 8192, 8200}[r.Intn(5)] + r.Intn(3)
+	for i := 1; i <= n; i++ {
+		c.Ops = append(c.Ops, Op{K: "begin", Tx: i, Level: r.Intn(4)})
+		if r.Intn(10) == 0 {
+			id++
+			c.Ops = append(c.Ops, Op{K: "set", Tx: i, Key: "k", ID: id, Size: 9 + r.Intn(8)})
+		}
+		c.Ops = append(c.Ops, Op{K: []string{"commit", "commit", "rollback"}[r.Intn(3)], Tx: i})
+	}
+	late := map[int]bool{}
+	for i := n; i > n-12 && i > 0; i-- {
+		late[i] = true
+	}
+	for _, m := range []int{1024, 2048, 4096, 8192, 1000, 4095, 4097} {
+		if m <= n {
+			late[m] = true
+		}
+	}
+	for k := 0; k < 20; k++ {
+		late[1+r.Intn(n)] = true
+	}
+	for i := 1; i <= n; i++ {
+		if !late[i] {
+			continue
+		}
+		c.Ops = append(c.Ops, Op{K: "get", Tx: i, Key: "k"}, Op{K: "keys", Tx: i})
+		if r.Intn(2) == 0 {
+			id++
+			c.Ops = append(c.Ops, Op{K: "set", Tx: i, Key: "late", ID: id, Size: 10}, Op{K: "commit", Tx: i}, Op{K: "get", Key: "late"})
+		} else {
+			c.Ops = append(c.Ops, Op{K: "rollback", Tx: i})
+		}
+	}
+	c.Ops = append(c.Ops, Op{K: "get", Key: "k"}, Op{K: "keys"})
+	return c
+}
+
+// genBigCommit (C03): one transaction without any conflicting writer whose commit is large -
+// 400-800 writes under keys of 2-4 KiB, or (many) 12 000-16 000 writes and deletes of short
+// distinct keys: Commit fails exactly on a write-write conflict, so this one must succeed and
+// everything it wrote be visible afterwards.
+func genBigCommit(r *simrt.Rand, many bool) SeqCase {
+	c := SeqCase{Prop: "C03", ReadBack: "none"}
+	c.Sched = SchedSpec{Seed: r.Uint64(), Strategy: "seqbg", MaxSteps: 400_000_000}
+	c.World = genWorldSpec(r)
+	c.World.GCPeriodNs = int64(time.Hour)
+	c.World.BadgerDefaults = true
+	n, klen := 400+r.Intn(400), 2000+r.Intn(2000)
+	if many {
+		n, klen = 12000+r.Intn(4000), 0
+	}
+	key := func(i int) string {
+		k := fmt.Sprintf("big-%05d", i)
+		if klen > 0 {
+			k += strings.Repeat(string(rune('a'+i%26)), klen)
+		}
+		return k
+	}
+	c.Keys = []string{key(0), key(n - 1)}
+	id := uint64(1)
+	pre := 1 + r.Intn(20)
+	for i := 0; i < pre; i++ {
+		id++
+		c.Ops = append(c.Ops, Op{K: "set", Key: key(r.Intn(n)), ID: id, Size: 10})
+	}
+	c.Ops = append(c.Ops, Op{K: "begin", Tx: 1, Level: r.Intn(4)})
+	for i := 0; i < n; i++ {
+		if many && i%3 == 2 {
+			c.Ops = append(c.Ops, Op{K: "del", Tx: 1, Key: key(i)})
+			continue
+		}
+		id++
+		c.Ops = append(c.Ops, Op{K: "set", Tx: 1, Key: key(i), ID: id, Size: 9 + r.Intn(12)})
+	}
+	c.Ops = append(c.Ops, Op{K: "commit", Tx: 1}, Op{K: "keys"})
+	for i := 0; i < 40; i++ {
+		c.Ops = append(c.Ops, Op{K: "get", Key: key(r.Intn(n))})
+	}
+	return c
 }
